@@ -380,6 +380,7 @@ struct World {
   }
 
   void note(const std::string &s) { if (keep_trace) tracelog.push_back(s); }
+  void run_until_blocked(int vpid) { for (;;) { Proc *p = P(vpid); if (!p || p->st != P_PENDING || !enabled(*p) || aborted) return; step(*p); } }
 
   void step(Proc &p);
   bool exec_op(Proc &p, Step &st, std::string &out, long *aout, long &ret, int &err);
